@@ -39,7 +39,7 @@ Section TieA.
     - destruct (r * c =? Z.of_nat (nr * nc))%Z; cbn [guard bind option_map]; [|reflexivity].
       unfold zpair. cbn [fst snd]. now rewrite !Z2Nat.id by lia.
     - destruct (Z.ltb_spec r 0) as [Hr0|Hr0]; [lia|].
-      destruct (Z.ltb_spec c 0) as [Hc0|Hc0]; [|reflexivity].
+      destruct (Z.ltb_spec c 0) as [Hc0|Hc0]; [|destruct (Z.eqb_spec r 0); [lia|reflexivity]].
       change (Z.opp 1) with (-1)%Z. destruct (c =? -1)%Z; cbn [andb guard bind option_map]; [|reflexivity].
       rewrite (irem_pos _ r Hr). cbn [bind]. rewrite Zeqb_nat0.
       destruct (_ =? 0)%nat; cbn [guard bind option_map]; [|reflexivity].
@@ -49,11 +49,15 @@ Section TieA.
         rewrite (irem_pos _ c Hc). cbn [bind]. rewrite Zeqb_nat0.
         destruct (_ =? 0)%nat; cbn [guard bind option_map]; [|reflexivity].
         rewrite (idiv_pos _ c Hc). cbn [bind]. unfold zpair. cbn [fst snd]. now rewrite Z2Nat.id by lia.
-      + destruct (Z.ltb_spec c 0) as [Hc0|Hc0]; [lia|reflexivity].
+      + destruct (Z.ltb_spec c 0) as [Hc0|Hc0]; [lia|].
+        destruct (Z.eqb_spec c 0); [lia|]. rewrite andb_false_r. reflexivity.
     - destruct (Z.ltb_spec r 0) as [Hr0|Hr0].
       + change (Z.opp 1) with (-1)%Z. rewrite andb_false_r. reflexivity.
-      + destruct (Z.ltb_spec c 0) as [Hc0|Hc0]; [|reflexivity].
-        change (Z.opp 1) with (-1)%Z. rewrite andb_false_r. reflexivity.
+      + destruct (Z.ltb_spec c 0) as [Hc0|Hc0].
+        * change (Z.opp 1) with (-1)%Z. rewrite andb_false_r. reflexivity.
+        * (* the request 0 x 0: accepted exactly when there are no elements *)
+          destruct (Z.eqb_spec r 0); [|lia]. destruct (Z.eqb_spec c 0); [|lia]. cbn [andb].
+          rewrite Zeqb_nat0. destruct (_ =? 0)%nat; reflexivity.
   Qed.
 
   (** [Matrix::new] as the source's [reshape] sees it: the model's [new], a matrix value being (nrows, ncols, data) *)
@@ -70,16 +74,20 @@ Section TieA.
     - destruct (r * c =? Z.of_nat (nr * nc))%Z; cbn [guard bind]; [|reflexivity].
       unfold new_z. destruct (new d r c); reflexivity.
     - destruct (Z.ltb_spec r 0) as [Hr0|Hr0]; [lia|].
-      destruct (Z.ltb_spec c 0) as [Hc0|Hc0]; [|reflexivity].
+      destruct (Z.ltb_spec c 0) as [Hc0|Hc0]; [|destruct (Z.eqb_spec r 0); [lia|reflexivity]].
       change (Z.opp 1) with (-1)%Z. destruct (c =? -1)%Z; cbn [andb guard bind]; [|reflexivity].
       rewrite (idiv_pos_Z _ r Hr). cbn [bind]. unfold new_z. destruct (new d r _); reflexivity.
     - destruct (Z.ltb_spec r 0) as [Hr0|Hr0].
       + change (Z.opp 1) with (-1)%Z. destruct (r =? -1)%Z; cbn [andb guard bind]; [|reflexivity].
         rewrite (idiv_pos_Z _ c Hc). cbn [bind]. unfold new_z. destruct (new d _ c); reflexivity.
-      + destruct (Z.ltb_spec c 0) as [Hc0|Hc0]; [lia|reflexivity].
+      + destruct (Z.ltb_spec c 0) as [Hc0|Hc0]; [lia|].
+        destruct (Z.eqb_spec c 0); [lia|]. rewrite andb_false_r. reflexivity.
     - destruct (Z.ltb_spec r 0) as [Hr0|Hr0].
       + change (Z.opp 1) with (-1)%Z. rewrite andb_false_r. reflexivity.
-      + destruct (Z.ltb_spec c 0) as [Hc0|Hc0]; [|reflexivity].
-        change (Z.opp 1) with (-1)%Z. rewrite andb_false_r. reflexivity.
+      + destruct (Z.ltb_spec c 0) as [Hc0|Hc0].
+        * change (Z.opp 1) with (-1)%Z. rewrite andb_false_r. reflexivity.
+        * (* the request 0 x 0 is handed to [Matrix::new], which decides *)
+          destruct (Z.eqb_spec r 0); [|lia]. destruct (Z.eqb_spec c 0); [|lia]. cbn [andb bind].
+          unfold new_z. destruct (new d 0 0); reflexivity.
   Qed.
 End TieA.
